@@ -187,6 +187,63 @@ def check_c12(prog, rep, tier, cfg):
                     bset = set(vals)
         rep.check(a == [10, 13] and bset == {10, 13}, R, "AGREE:interior-line-terminators", "lines_custom splits on %s but the lexer accepts %s after the opening quotes" % (a, sorted(bset)),
                   instance={"lines_custom": a, "lexer": sorted(bset)})
+        # the splitter closure is a two-state automaton over {CR, LF, other}: decide its complete transition table
+        from table import Table, TooComplex, vdesc, render
+        try:
+            tb = Table(prog, lcs[0])
+            trans = {}
+            okp = True
+            for (cons, res), eff in zip(tb.rows, tb.effects):
+                skip = None
+                cls = None
+                eq10 = None
+                for c in cons:
+                    if c[0] != "cond":
+                        continue
+                    if c[1] == "arg1.0":
+                        skip = (c[2] != 0)
+                    elif c[1] == "arg2":
+                        cls = "CR" if c[2] == 13 else ("LF" if c[2] == 10 else "other")
+                    elif c[1] == "Eq(arg2,char:10)":
+                        eq10 = (c[2] != 0)
+                    elif c[1] == "Eq(arg2,char:13)":
+                        cls = cls or ("CR" if c[2] != 0 else None)
+                if eq10 is True:
+                    if cls not in (None, "LF"):
+                        continue  # infeasible path
+                    cls = "LF"
+                elif eq10 is False and cls == "LF":
+                    continue      # infeasible path
+                if skip is None:
+                    okp = False
+                    continue
+                classes = [cls] if cls else ["CR", "LF", "other"]
+                if eq10 is False and cls is None:
+                    classes = ["CR", "other"]
+                for cc in classes:
+                    newskip = skip
+                    for k, v in eff:
+                        if k == "arg1.0":
+                            d = vdesc(v)
+                            if d in ("True", "False"):
+                                newskip = (d == "True")
+                            elif d == "Eq(arg2,char:13)":
+                                newskip = (cc == "CR")
+                            else:
+                                okp = False
+                    r = render(res)
+                    if r not in ("True", "False"):
+                        okp = False
+                    trans.setdefault((skip, cc), set()).add((r == "True", newskip))
+            want = {(False, "CR"): {(True, True)}, (False, "LF"): {(True, False)}, (False, "other"): {(False, False)},
+                    (True, "CR"): {(True, True)}, (True, "LF"): {(False, False)}, (True, "other"): {(False, False)}}
+            rep.check(okp and trans == want, R, "line-splitter-automaton",
+                      "the interior-line splitter (state: `previous char was CR`) has transition table %s; required: CR ends a line and arms the flag, LF ends a line unless the flag is armed, "
+                      "and the flag is cleared by every character other than CR (otherwise a bare LF after a CRLF is swallowed and a blank interior line disappears)"
+                      % {str(k): sorted(v) for k, v in sorted(trans.items(), key=str)},
+                      where="%s:%d" % (lcs[0].file, lcs[0].line), instance={"transitions": {"%s,%s" % k: sorted(map(str, v)) for k, v in trans.items()}})
+        except TooComplex as e:
+            rep.fail(R, "line-splitter-automaton", "the line splitter closure is no longer loop-free: %s" % e)
         lcb = prog.body(MS + "lines_custom")
         tm = [c for c in prog.bodies.values() if c.npath.startswith(MS + "lines_custom::{closure#1}")]
         rep.check(lcb is not None and len(tm) == 1 and any(c.callee == "core::str::trim_matches" for c in tm[0].calls()), R, "terminators-trimmed", "lines_custom no longer trims the terminators off each line")
